@@ -125,6 +125,8 @@ impl Vocoder {
                 self.excitation.start(p, self.fperiod);
 
                 (0..self.fperiod).for_each(|i| {
+                    #[cfg(jbonsai_verif)]
+                    crate::verif::yield_point(2);
                     let mut x = self.excitation.get(lpf);
                     if x != 0.0 {
                         x *= coefficients[0].exp();
@@ -162,6 +164,8 @@ impl Vocoder {
                 self.excitation.start(p, self.fperiod);
 
                 (0..self.fperiod).for_each(|i| {
+                    #[cfg(jbonsai_verif)]
+                    crate::verif::yield_point(2);
                     let mut x = self.excitation.get(lpf);
                     x *= coefficients[0];
                     filter.df(&mut x, self.alpha, coefficients);
